@@ -126,6 +126,11 @@ fn sampled(rng: &mut Rng) -> Scenario {
                 let cap = sc.max_step.unwrap_or(f64::INFINITY).min(span);
                 sc.first_step = Some(cap * rng.logu(1e-4, 0.9));
             }
+            if sc.method.implicit() && rng.bool(0.15) {
+                // a valid lower bound below everything else
+                let cap = sc.max_step.unwrap_or(f64::INFINITY).min(sc.first_step.map(|h| h.abs()).unwrap_or(f64::INFINITY)).min(span);
+                sc.min_step = Some(cap * rng.logu(1e-4, 0.5));
+            }
             if sc.entry == Entry::Low {
                 sc.knobs = gen_knobs(rng, sc.method);
             }
@@ -139,6 +144,7 @@ fn sampled(rng: &mut Rng) -> Scenario {
         sc.xend = sc.x0 + d * span;
         sc.max_step = Some(span / rng.int(3, 60) as f64);
         sc.first_step = if rng.bool(0.3) { Some(sc.max_step.unwrap() * rng.logu(1e-2, 0.9)) } else { None };
+        sc.min_step = None;
         sc.max_steps = None;
         return sc;
     }
